@@ -232,9 +232,16 @@ def opPersist (cfg : Cfg) (w : W) (k : Key) : W :=
 def keysWithPrefix (m : Mem) (now : Int) (p : Bytes) : List Key :=
   (m.kv.filter (fun x => p.isPrefixOf x.1 && !m.expired now x.1)).map (·.1)
 
-/-- mirrors `removeWithPrefix`: `keysWithPrefix`, then `remove` one by one -/
-def opRemoveWithPrefix (cfg : Cfg) (w : W) (p : Bytes) : W × Out :=
-  let ks := keysWithPrefix w.mem w.now p
+/-- The order in which `keysWithPrefix` lists the matching keys is the iteration order of a `std::unordered_map`: unspecified.
+It is an INPUT of the model (like the cache-victim choices): `ord` is the order the caller observed; it is used when it is a
+permutation of the matching live keys, otherwise the model's own list order is used.  Every theorem about
+`removeWithPrefix` holds for every `ord`. -/
+def prefixOrder (m : Mem) (now : Int) (p : Bytes) (ord : List Key) : List Key :=
+  if ord.isPerm (keysWithPrefix m now p) then ord else keysWithPrefix m now p
+
+/-- mirrors `removeWithPrefix`: `keysWithPrefix` (in the order `ord`, see `prefixOrder`), then `remove` one by one -/
+def opRemoveWithPrefix (cfg : Cfg) (w : W) (p : Bytes) (ord : List Key) : W × Out :=
+  let ks := prefixOrder w.mem w.now p ord
   (ks.foldl (opRemove cfg) w, .count ks.length)
 
 /-- mirrors `clear`: a 'D' per key, then everything is dropped, then `maybeCompact` -/
@@ -326,7 +333,7 @@ inductive Op
   | setBatchTtl (kvs : List (Key × Val)) (ttl : Int)
   | get (k : Key)
   | remove (k : Key)
-  | removeWithPrefix (p : Bytes)
+  | removeWithPrefix (p : Bytes) (ord : List Key)
   | clear
   | expireAt (k : Key) (when_ : Int)
   | persist (k : Key)
@@ -346,7 +353,7 @@ def step (cfg : Cfg) (w0 : W) (op : Op) : W × Out :=
   | .setBatchTtl kvs ttl => opSetBatchTtl cfg w kvs ttl
   | .get k => opGet cfg w k
   | .remove k => (opRemove cfg w k, .ok)
-  | .removeWithPrefix p => opRemoveWithPrefix cfg w p
+  | .removeWithPrefix p ord => opRemoveWithPrefix cfg w p ord
   | .clear => (opClear cfg w, .ok)
   | .expireAt k t => (opExpireAt cfg w k t, .ok)
   | .persist k => (opPersist cfg w k, .ok)
